@@ -418,15 +418,55 @@ func buildFieldType(ww *conversionVisitor, node sourcewalk.FieldNode) (*descript
 		return desc, nil
 
 	case *schema_j5pb.Field_Float:
-		if st.Float.Rules != nil {
-			return nil, fmt.Errorf("TODO: float rules not implemented")
+		if st.Float.Rules != nil && st.Float.Rules.MultipleOf != nil {
+			return nil, fmt.Errorf("float rules: multipleOf is not supported")
 		}
 		switch st.Float.Format {
 		case schema_j5pb.FloatField_FORMAT_FLOAT32:
 			desc.Type = descriptorpb.FieldDescriptorProto_TYPE_FLOAT.Enum()
+			if rules := st.Float.Rules; rules != nil {
+				floatRules := &validate.FloatRules{}
+				if rules.Maximum != nil {
+					if rules.GetExclusiveMaximum() {
+						floatRules.LessThan = &validate.FloatRules_Lt{Lt: float32(*rules.Maximum)}
+					} else {
+						floatRules.LessThan = &validate.FloatRules_Lte{Lte: float32(*rules.Maximum)}
+					}
+				}
+				if rules.Minimum != nil {
+					if rules.GetExclusiveMinimum() {
+						floatRules.GreaterThan = &validate.FloatRules_Gt{Gt: float32(*rules.Minimum)}
+					} else {
+						floatRules.GreaterThan = &validate.FloatRules_Gte{Gte: float32(*rules.Minimum)}
+					}
+				}
+				proto.SetExtension(desc.Options, validate.E_Field, &validate.FieldConstraints{
+					Type: &validate.FieldConstraints_Float{Float: floatRules},
+				})
+			}
 
 		case schema_j5pb.FloatField_FORMAT_FLOAT64:
 			desc.Type = descriptorpb.FieldDescriptorProto_TYPE_DOUBLE.Enum()
+			if rules := st.Float.Rules; rules != nil {
+				doubleRules := &validate.DoubleRules{}
+				if rules.Maximum != nil {
+					if rules.GetExclusiveMaximum() {
+						doubleRules.LessThan = &validate.DoubleRules_Lt{Lt: *rules.Maximum}
+					} else {
+						doubleRules.LessThan = &validate.DoubleRules_Lte{Lte: *rules.Maximum}
+					}
+				}
+				if rules.Minimum != nil {
+					if rules.GetExclusiveMinimum() {
+						doubleRules.GreaterThan = &validate.DoubleRules_Gt{Gt: *rules.Minimum}
+					} else {
+						doubleRules.GreaterThan = &validate.DoubleRules_Gte{Gte: *rules.Minimum}
+					}
+				}
+				proto.SetExtension(desc.Options, validate.E_Field, &validate.FieldConstraints{
+					Type: &validate.FieldConstraints_Double{Double: doubleRules},
+				})
+			}
 
 		case schema_j5pb.FloatField_FORMAT_UNSPECIFIED:
 			return nil, fmt.Errorf("float format unspecified")
